@@ -65,7 +65,7 @@ def Table.find (t : Table) (k : Bytes) : Option Nat :=
   | [] => none
   | (k', v) :: rest => if k' = k then some v else Table.find rest k
 
-def ptrLimit : Nat := 16383   -- int(^uint16(0)>>2) = 0x3FFF; tied by translation: `ptrFits_translated` (Lemmas/TranslatedC02)
+def ptrLimit : Nat := 16383   -- int(^uint16(0)>>2) = 0x3FFF; tied by translation: `ptrFits_translated` (Lemmas/TranslatedC02), `loop2_step_ok` (Lemmas/TranslatedEncName)
 
 /-- Register every suffix of the (valid, fully written) name `n` that starts at offset
     `≤ 0x3FFF`; `pos` is the absolute offset of the current suffix. -/
@@ -275,6 +275,31 @@ def packMsg (m : Msg) (compression : Bool) (size : Nat) (cap : Nat) : Res Bytes 
           ++ enc16 (m.authorities.length - kn) ++ enc16 (m.additionals.length - kx)
           ++ s5.body
         if out.length > cap then .err else .ok out
+
+/-! ### the buffer view of the packers
+
+  `Name.pack`, `Question.pack`, `Resource.pack` write at `off` into the pre-sized buffer `msg` and return the new
+  offset (the compression map is updated in place): `writeRes msg off (pack… off tbl x)` is that view of the model's
+  packers — the octets the model produces, written with `writeAt`.  The translated Go packers are EQUAL to these
+  (`Lemmas/TranslatedEnc*.lean`). -/
+def writeRes (msg : Bytes) (off : Nat) (r : Res (Bytes × Option Table)) : Res (Bytes × Option Table × Nat) :=
+  match r with
+  | .ok (bs, tbl) =>
+    match writeAt msg off bs with
+    | .ok (m, o) => .ok (m, tbl, o)
+    | .err => .err
+    | .panic => .panic
+  | .err => .err
+  | .panic => .panic
+
+def packNameBuf (msg : Bytes) (off : Nat) (tbl : Option Table) (n : Name) : Res (Bytes × Option Table × Nat) :=
+  writeRes msg off (packName off tbl n)
+
+def packQuestionBuf (msg : Bytes) (off : Nat) (tbl : Option Table) (q : Question) : Res (Bytes × Option Table × Nat) :=
+  writeRes msg off (packQuestion off tbl q)
+
+def packResourceBuf (msg : Bytes) (off : Nat) (tbl : Option Table) (r : Resource) : Res (Bytes × Option Table × Nat) :=
+  writeRes msg off (packResource off tbl r)
 
 /-! ### well-formedness: exactly the messages the decoder can produce -/
 
